@@ -32,9 +32,13 @@ Proof.
   intros [e1 d1] [e2 d2]; unfold tol_eqb; simpl. rewrite andb_true_iff. intros [A B].
   apply Qc_eq_bool_correct in A. apply Z.eqb_eq in B. congruence.
 Qed.
-(* `_length_info['error'] >= error and _length_info['min_depth'] >= min_depth`;
+(* pinned:   `_length_info['error'] >= error and _length_info['min_depth'] >= min_depth`
+   repaired: `_length_info['error'] <= error and _length_info['min_depth'] >= min_depth`
    first argument: the cached tolerance *)
-Definition tol_reuse (c t : Tol) : bool := Qc_leb (fst t) (fst c) && Z.leb (snd t) (snd c).
+Definition tol_reuse_pinned (c t : Tol) : bool := Qc_leb (fst t) (fst c) && Z.leb (snd t) (snd c).
+Definition tol_reuse_fixed (c t : Tol) : bool := Qc_leb (fst c) (fst t) && Z.leb (snd t) (snd c).
+Definition tol_reuse (fx : fixes) : Tol -> Tol -> bool :=
+  if fx_cubic fx then tol_reuse_fixed else tol_reuse_pinned.
 (* LENGTH_ERROR = 1e-12, LENGTH_MIN_DEPTH = 5 *)
 Definition t_default : Tol := (qc 1 1000000000000, 5%Z).
 
@@ -79,15 +83,16 @@ Module Sym.
   Definition Q : Type := @query P Pay Tol sym.
   Definition Ev : Type := @event P Pay Tol sym.
   Definition Val : Type := @value P Pay sym.
-  Definition seg_length : Seg -> Tol -> Seg * sym := seg_length P_eqb Pay_eqb tol_reuse SLen.
-  Definition step : St -> Op -> St * @result P Pay := step P_eqb Pay_eqb.
-  Definition obs : St -> Q -> St * Val :=
-    obs P_eqb P_falsy Pay_eqb tol_reuse t_default SLen SZero SOne SAdd SSub SDiv sym_eqb sym_geb.
-  Definition run : St -> list Ev -> St :=
-    run P_eqb P_falsy Pay_eqb tol_reuse t_default SLen SZero SOne SAdd SSub SDiv sym_eqb sym_geb.
-  Definition trace : St -> list Ev -> list (@outcome P Pay sym) :=
-    trace P_eqb P_falsy Pay_eqb tol_reuse t_default SLen SZero SOne SAdd SSub SDiv sym_eqb sym_geb.
-  Definition ask (s : St) (q : Q) : Val := snd (obs s q).
+  Definition seg_length (fx : fixes) : Seg -> Tol -> Seg * sym :=
+    seg_length fx P_eqb Pay_eqb (tol_reuse fx) tol_eqb SLen.
+  Definition step (fx : fixes) : St -> Op -> St * @result P Pay := step fx P_eqb Pay_eqb.
+  Definition obs (fx : fixes) : St -> Q -> St * Val :=
+    obs fx P_eqb P_falsy Pay_eqb (tol_reuse fx) tol_eqb t_default SLen SZero SOne SAdd SSub SDiv sym_eqb sym_geb.
+  Definition run (fx : fixes) : St -> list Ev -> St :=
+    run fx P_eqb P_falsy Pay_eqb (tol_reuse fx) tol_eqb t_default SLen SZero SOne SAdd SSub SDiv sym_eqb sym_geb.
+  Definition trace (fx : fixes) : St -> list Ev -> list (@outcome P Pay sym) :=
+    trace fx P_eqb P_falsy Pay_eqb (tol_reuse fx) tol_eqb t_default SLen SZero SOne SAdd SSub SDiv sym_eqb sym_geb.
+  Definition ask (fx : fixes) (s : St) (q : Q) : Val := snd (obs fx s q).
 
   Definition line (a b : P) : Seg := fresh_seg (mkSD KLine a b []).
   Definition quad (a c b : P) : Seg := fresh_seg (mkSD KQuad a b [c]).
@@ -135,9 +140,9 @@ Module Ex.
   Definition Ev : Type := @event P Pay Tol Qc.
   Definition Val : Type := @value P Pay Qc.
   Definition Out : Type := @outcome P Pay Qc.
-  Definition step_ev (tb : Table) : St -> Ev -> St * Out :=
-    step_ev P_eqb P_falsy Pay_eqb tol_reuse t_default (lookup tb) q0 q1 Qcplus Qcminus Qcdiv Qc_eq_bool q_geb.
-  Definition obs (tb : Table) : St -> Q -> St * Val :=
-    obs P_eqb P_falsy Pay_eqb tol_reuse t_default (lookup tb) q0 q1 Qcplus Qcminus Qcdiv Qc_eq_bool q_geb.
-  Definition step : St -> Op -> St * @result P Pay := step P_eqb Pay_eqb.
+  Definition step_ev (fx : fixes) (tb : Table) : St -> Ev -> St * Out :=
+    step_ev fx P_eqb P_falsy Pay_eqb (tol_reuse fx) tol_eqb t_default (lookup tb) q0 q1 Qcplus Qcminus Qcdiv Qc_eq_bool q_geb.
+  Definition obs (fx : fixes) (tb : Table) : St -> Q -> St * Val :=
+    obs fx P_eqb P_falsy Pay_eqb (tol_reuse fx) tol_eqb t_default (lookup tb) q0 q1 Qcplus Qcminus Qcdiv Qc_eq_bool q_geb.
+  Definition step (fx : fixes) : St -> Op -> St * @result P Pay := step fx P_eqb Pay_eqb.
 End Ex.
